@@ -10,6 +10,8 @@ inductive RV where
   | mat (rows cols : Nat) (els : List Int)
   | blob (text : String)
   | tuple (els : List RV)
+  | record (fields : List (String × Int))
+  | table (rows : Nat) (cols : List (String × List Int))
 deriving Repr
 
 structure RStore where
@@ -26,6 +28,8 @@ def litRV : V → RV
   | .mat r c els => .mat r c els
   | .blob t => .blob t
   | .tuple _ => .blob "?"
+  | .record fs => .record fs
+  | .table r cs => .table r cs
 
 def rEval (s : RStore) (e : Expr) : Option RV :=
   match e with
@@ -44,10 +48,19 @@ def rCompatible : RV → RV → Bool
   | .blob a, .blob b => scalarBlob a && scalarBlob b && blobKind a == blobKind b
   | _, _ => false
 
-def rAdd : RV → RV → Option RV
-  | .num a, .num b => some (.num (a + b))
-  | .mat r c els, .num b => some (.mat r c (els.map (· + b)))
-  | .mat r c els, .mat r' c' els' => if r = r' ∧ c = c' then some (.mat r c (List.zipWith (· + ·) els els')) else none
+def rAdd (op : AOp) : RV → RV → Option RV
+  | .num a, .num b => some (.num (op.ap a b))
+  | .mat r c els, .num b => some (.mat r c (els.map (op.ap · b)))
+  | .mat r c els, .mat r' c' els' => if r = r' ∧ c = c' then some (.mat r c (List.zipWith op.ap els els')) else none
+  | _, _ => none
+
+def rSetField (f : String) : RV → RV → Option RV
+  | .record fs, .num x =>
+    if fs.any (fun p => p.1 == f) then some (.record (fs.map (fun p => if p.1 == f then (p.1, x) else p))) else none
+  | .table rows cols, .mat r c els =>
+    if r = rows ∧ c = 1 ∧ els.length = rows ∧ cols.any (fun p => p.1 == f) then
+      some (.table rows (cols.map (fun p => if p.1 == f then (p.1, els) else p)))
+    else none
   | _, _ => none
 
 /-- one statement of the reference semantics: (new store, accepted?) -/
@@ -72,13 +85,25 @@ def rexec (s : RStore) (st : Stmt) : RStore × Bool :=
         (s.set n (.mat r c (ix.foldl (fun acc i => acc.set (i - 1) v) els)), true)
       else (s, false)
     | _ => (s, false)
-  | .addAssign n e =>
+  | .addAssign op n e =>
     match s.get n, rEval s e with
     | some (old, true), some v =>
-      (match rAdd old v with
+      (match rAdd op old v with
        | some nv => (s.set n nv, true)
        | none => (s, false))
     | _, _ => (s, false)
+  | .setField n f e =>
+    -- the field setters refuse a bare variable as the source; a refusal that changes nothing is
+    -- within the property
+    match e with
+    | .var _ => (s, false)
+    | _ =>
+      match s.get n, rEval s e with
+      | some (old, true), some v =>
+        (match rSetField f old v with
+         | some nv => (s.set n nv, true)
+         | none => (s, false))
+      | _, _ => (s, false)
   | .destructure names t =>
     match s.get t with
     | some (.tuple els, _) =>
